@@ -195,6 +195,8 @@ mut('C05', 'step_shares_the_agents_process_group', 'internal/dag/executor/comman
 		Pgid:    0,""", """		Setpgid: false,
 		Pgid:    0,""")
 mut('C11', 'outputs_prepended_to_environment', 'internal/dag/executor/command.go', """		cmd.Env = append(cmd.Env, value.(string))""", """		cmd.Env = append([]string{value.(string)}, cmd.Env...)""")
+mut('C09', 'created_job_bound_to_nothing', 'internal/scheduler/job.go', """		DAG:        workflow,
+		Executable: jf.Executable,""", """		Executable: jf.Executable,""")
 # ---- C10
 mut('C10', 'interrupted_steps_not_reset', G, """				dict[u] == NodeStatusCancel || dict[u] == NodeStatusRunning {""", """				dict[u] == NodeStatusCancel {""")
 mut('C10', 'canceled_steps_not_reset', G, """			if retry[u] || dict[u] == NodeStatusError ||
